@@ -943,3 +943,64 @@ def check_lifecycle(scn, res):
 
 def oracle_c08(scn, res):
     return check_lifecycle(scn, res), outcome(res)
+
+
+# ---- C18: lineage history ----------------------------------------------------------------------------------------------------
+
+def collapse(types):
+    out = []
+
+    for t in types:
+        if out and out[-1][0] == t:
+            out[-1][1] += 1
+        else:
+            out.append([t, 1])
+
+    return ' '.join(t if n == 1 else f'{t}+' for t, n in out)
+
+
+def check_lineage(scn, res):
+    viols = []
+    c     = scn['c18']
+    evs   = [e for e in res.log if e['ev'] == 'lineage']
+    types = [e['type'] for e in evs]
+    end   = next((e for e in res.log if e['ev'] == 'end'), None)
+
+    def bad(kind, what):
+        viols.append({'signature': f'C18/{kind}/{c["ending"]}', 'what': f'[{scn.get("name")}] {what}; events: {" ".join(types)}', 'detail': {'events': evs[:40]}})
+
+    if end is None:
+        bad('harness-run-did-not-end', f'run still going at {res.now} ms')
+
+        return viols
+
+    clean = end['how'] == 'returned'
+    want  = 'COMPLETE' if clean else 'ABORT'
+    pat   = collapse(types)
+
+    if not types or types[0] != 'START' or types.count('START') != 1:
+        bad('start', f'history does not begin with exactly one START ({pat})')
+
+    terminals = [t for t in types if t in ('COMPLETE', 'ABORT', 'FAIL')]
+
+    if len(terminals) != 1:
+        bad('terminal-count', f'{len(terminals)} terminal events for a run that ended {"cleanly" if clean else "by an error"} ({pat})')
+    elif terminals[0] != want:
+        bad('terminal-kind', f'terminal event is {terminals[0]} but the run ended {"cleanly" if clean else "by an error"} ({pat})')
+
+    if terminals and types[-1] not in ('COMPLETE', 'ABORT', 'FAIL') or (terminals and any(t not in ('COMPLETE', 'ABORT', 'FAIL') for t in types[types.index(terminals[0]):])):
+        bad('event-after-terminal', f'events follow the terminal event ({pat})')
+
+    if any(t not in ('START', 'RUNNING', 'COMPLETE', 'ABORT', 'FAIL') for t in types):
+        bad('unknown-event', f'unexpected event types ({pat})')
+
+    if len({e['run'] for e in evs}) > 1:
+        bad('run-id', 'events carry different run ids')
+
+    return viols
+
+
+def oracle_c18(scn, res):
+    evs = [e['type'] for e in res.log if e['ev'] == 'lineage']
+
+    return check_lineage(scn, res), common.digest(evs, 16)
